@@ -167,6 +167,18 @@ def directed_pair(draw):
 
 
 @st.composite
+def highcode_pair(draw):
+    """2 100 - 7 000 rows in 2-12 strata of unequal size whose codes are spread over [0, 2^20): code x n exceeds 2^31, so any
+    row/value key packed into 32 bits wraps."""
+    sizes = draw(st.lists(st.integers(20, 900), min_size=2, max_size=12))
+    if sum(sizes) < 2100:
+        sizes = sizes + [2100 - sum(sizes)]
+    return {'strata': {'sizes': sizes, 'k': draw(st.integers(0, 2**32 - 1)), 'ky': draw(st.integers(2, 6)),
+                       'order': draw(st.sampled_from(['blocked', 'shuffled', 'shuffled']))},
+            'recode': draw(st.sampled_from(['spread', 'spread', 'top', 'offset']))}
+
+
+@st.composite
 def blocky_pair(draw):
     """n beyond 2^16 (up to the 10^6 of the domain) with rare target values whose first rows straddle multiples of 65536:
     block-wise scans must still take exactly the first quota rows of each value."""
@@ -216,9 +228,10 @@ def materialize(case):
 
 @st.composite
 def c04_case(draw):
-    case = dict(draw(st.one_of(directed_pair(), directed_pair(), many_strata_pair(), gens.small_pair(),
+    case = dict(draw(st.one_of(directed_pair(), directed_pair(), many_strata_pair(), gens.small_pair(), highcode_pair(),
                                gens.family_pair(sizes=((2, 8), (9, 64), (65, 2000), (2001, 5000)), max_product=10**7))))
     # most ratios are drawn so that the quota is at least 1 (quota 0 means "all rows" and has no unwritten tail)
+    forced_recode = case.get('recode')
     _, X0 = materialize(case)
     n0, k0 = len(X0), len(set(X0.tolist()))
     lo = (k0 + 0.5) / n0 if n0 else 1.0
@@ -248,7 +261,23 @@ def c04_case(draw):
     case['c'] = draw(st.booleans())
     case['heaps'] = [draw(heap_history()) for _ in range(3)]
     case['alt'] = draw(st.integers(0, 2**31 - 1))
+    # the same partition structure with codes anywhere in [0, 2^20) (C01's code domain): sampling depends on first rows per value only
+    case['recode'] = forced_recode or draw(st.sampled_from([None, None, None, 'top', 'spread', 'offset']))
     return case
+
+
+def recode(v, how):
+    """Injective recoding of one vector into [0, 2^20)."""
+    if not how or len(v) == 0:
+        return v
+    top = 2**20 - 1
+    vals = np.unique(v)
+    rank = np.searchsorted(vals, v)
+    if how == 'top':
+        return (top - rank).astype(np.int64)
+    if how == 'spread':
+        return (rank * (top // max(len(vals) - 1, 1))).astype(np.int64)
+    return (v + (top - int(vals[-1]))).astype(np.int64)
 
 
 @st.composite
@@ -267,6 +296,9 @@ def wide_case(draw):
 
 def oracle(case, rec):
     Y, X = materialize(case)
+    if case.get('recode'):
+        Y, X = recode(Y, case['recode']), recode(X, case['recode'])
+        rec.cls('codes-near-2^20')
     n = len(X)
     r, c = float(np.float32(case['r'])), bool(case['c'])
     # r is the float32 value the estimator receives; float32 x n (< 2^29) is exact in float64, so floor(r*n) is determined
